@@ -19,6 +19,7 @@ func lbl(s string) [][]byte {
 }
 
 var namePool = []string{"www.example.com", "cdn.example.net", "a.b", "host1.lan", "printer.local", "x", "mail.example.com",
+	"WWW.Example.COM", "Host1.LAN", "CDN.example.net", "x_1-Y.Z9", "b\xfcro.Example",
 	"a-very-long-label-that-fills-the-sixty-four-byte-buffer-quickly.example.org", "edge.cdn.example.net"}
 var ptrOwners = []string{"4.3.2.1.in-addr.arpa", "129.0.168.192.in-addr.arpa", "1.0.0.127.in-addr.arpa", "255.255.255.255.in-addr.arpa"}
 var badPtrOwners = []string{"4.3.2.1", "::ffff:4.3.2.1.in-addr.arpa", "::1.in-addr.arpa", "1%2.3.2.1.in-addr.arpa", "4.3.2.1.5.in-addr.arpa",
@@ -285,8 +286,50 @@ func genPDNSHeaderSweep(r *lib.Run, rng *lib.Rand) {
 	}
 }
 
+// NAME SPELLING ACROSS A HISTORY: one name asked again and again (same spelling, and other spellings of the
+// same name: lower / UPPER / 0x20 MiXeD case, digits, hyphen, underscore, non-ASCII octets, NUL), every
+// response carrying a different record set. The table key is the exact octet string (Spec: table_key).
+var spellingFamilies = [][]string{
+	{"www.example.com", "WWW.EXAMPLE.COM", "wWw.ExAmPlE.cOm", "Www.example.com", "www.example.coM"},
+	{"Host-01.LAN", "host-01.lan", "HOST-01.LAN", "hOST-01.lan"},
+	{"_srv_1._TCP.Example.org", "_srv_1._tcp.example.org", "_SRV_1._TCP.EXAMPLE.ORG"},
+	{"caf\xc3\xa9.Example", "CAF\xc3\xa9.example", "caf\xc3\x89.example", "caf\xe9.example"},
+	{"nul\x00byte.Z", "NUL\x00BYTE.z", "nul\x00byte.z"},
+	{"X", "x"},
+	{"A1-b_2.C3", "a1-b_2.c3", "A1-B_2.C3"},
+}
+
+func genPDNSSpellings(r *lib.Run, rng *lib.Rand) {
+	H := 250
+	if r.Thorough() {
+		H = 4000
+	}
+	for i := 0; i < H; i++ {
+		fam := spellingFamilies[i%len(spellingFamilies)]
+		class := "spelling-same"
+		var msgs []string
+		first := pick(rng, fam)
+		depth := 3 + rng.Intn(5)
+		for j := 0; j < depth; j++ {
+			name := first
+			if i%2 == 1 && rng.Chance(50) { // other spellings of the same name in between
+				name = pick(rng, fam)
+				class = "spelling-mixed"
+			}
+			m := response{qname: name, qtype: rng.Pick(1, 28, 255), flags: 0x8180}
+			// a different record set every time: fresh addresses / names from the pools
+			m.an = genAnswers(rng, name, 1+rng.Intn(3), false)
+			m.an = append(m.an, rr{owner: name, ownerPtr: "Q", typ: 1, ttl: 60, rdata: (&asm{}).Raw(10, byte(i), byte(j), byte(rng.Intn(250)))})
+			msgs = append(msgs, lib.Hex(m.build())+":"+lib.Hex(spare(rng)))
+		}
+		r.Do("pdns", strings.Join(msgs, ";"))
+		r.Stat("class.pdns."+class, 1)
+	}
+}
+
 func genPDNS(r *lib.Run, rng *lib.Rand) {
 	genPDNSHeaderSweep(r, rng)
+	genPDNSSpellings(r, rng)
 	H := 700
 	if r.Thorough() {
 		H = 12000
